@@ -110,6 +110,7 @@ func (x *fnCtx) paramNames(fr *Frame) map[string]nameBind {
 
 func (x *fnCtx) explore() {
 	// from entry
+	x.curHeader = nil
 	st, fr := x.newTopState()
 	st.from = "entry"
 	x.assumeRequires(st, fr)
@@ -130,6 +131,7 @@ func (x *fnCtx) explore() {
 	for i, h := range x.hdrList {
 		st, fr := x.newTopState()
 		st.from = fmt.Sprintf("loop %d", i+1)
+		x.curHeader = h
 		x.assumeRequires(st, fr)
 		fr.oldHeap = st.heap.snapshot()
 		x.startAtHeader(st, fr, h, i+1)
@@ -221,9 +223,18 @@ func (x *fnCtx) startAtHeader(st *State, fr *Frame, h *ssa.BasicBlock, ord int) 
 	for _, d := range domChain(h) {
 		for _, in := range d.Instrs {
 			switch v := in.(type) {
+			case *ssa.Alloc:
+				if v.Comment != "" && v.Comment != "complit" && v.Comment != "varargs" && v.Comment != "makeslice" {
+					fr.names[v.Comment] = nameBind{v: x.getVal(st, fr, v), isAddr: true}
+				}
 			case *ssa.DebugRef:
 				if obj := v.Object(); obj != nil {
 					if _, isVar := obj.(*types.Var); isVar {
+						if old, ok := fr.names[obj.Name()]; ok && old.isAddr && !v.IsAddr {
+							if al, isAlloc := allocOf(fr, old.v); isAlloc && al.Comment == obj.Name() {
+								continue
+							}
+						}
 						fr.names[obj.Name()] = nameBind{v: x.getVal(st, fr, v.X), isAddr: v.IsAddr}
 					}
 				}
